@@ -30,6 +30,7 @@ def run(rep, tier):
     grouper_stream(rep, r, 150 * scale, lines, exps, metas)
     phot_stream(rep, r, 60 * scale, lines, exps, metas)
     local_background_probe(rep, r, 6 * scale)
+    interleaved_groups_probe(rep, r, 2 * scale)
     out = drv.run(lines)
     if out is None:
         rep.tie_broken('model driver failed', drv.error)
@@ -424,6 +425,53 @@ def local_background_probe(rep, r, n):
         if not np.allclose(got, exp, rtol=1e-10, atol=1e-10):
             rep.violation('local-background-ne-annulus-median', f'LocalBackground({rin}, {rout}) at x = {xs}, y = {ys} on a {ny} x {nx} frame gives {got.tolist()}, '
                           f'the clipped median of the annulus pixels is {exp}', {'shape': [ny, nx], 'x': xs, 'y': ys, 'r_in': rin, 'r_out': rout})
+
+
+def interleaved_groups_probe(rep, r, n):
+    """(S) groups whose members are interleaved in the input table (A1, B1, A2, B2 ...), each source on its own sky pedestal given in the
+    `local_bkg` column: every row is fitted with ITS OWN local background, so the rendered fluxes come back (seed C12-r8 subtracted the
+    local background of the row at the same position of the group-sorted table)"""
+    from astropy.table import Table
+    from photutils.psf import CircularGaussianPRF, PSFPhotometry, SourceGrouper
+    for k in range(n):
+        yy, xx = np.mgrid[0:48, 0:64]
+        npairs = r.choice([2, 3])
+        cx = [12 + 20 * j for j in range(npairs)]
+        srcs = []                                               # (x, y, flux, pedestal)
+        for j in range(npairs):
+            ped = [5.0, 20.0, 11.0][j]
+            y0 = r.uniform(20, 28)
+            srcs.append((cx[j] - 2.2 + r.uniform(-0.3, 0.3), y0 + r.uniform(-0.3, 0.3), r.choice([600.0, 1000.0]), ped))
+            srcs.append((cx[j] + 2.2 + r.uniform(-0.3, 0.3), y0 + r.uniform(-0.3, 0.3), r.choice([800.0, 1200.0]), ped))
+        order = [2 * j for j in range(npairs)] + [2 * j + 1 for j in range(npairs)]         # A1 B1 (C1) A2 B2 (C2)
+        if k % 2:
+            order = order[::-1]
+        srcs = [srcs[i] for i in order]
+        img = np.zeros(xx.shape)
+        for j in range(npairs):
+            img[:, max(0, cx[j] - 10):cx[j] + 10] += [5.0, 20.0, 11.0][j]
+        m = CircularGaussianPRF(fwhm=3.0)
+        for (x_, y_, f_, _) in srcs:
+            m.x_0, m.y_0, m.flux = x_, y_, f_
+            img += m(xx, yy)
+        init = Table({'x': [s_[0] + 0.2 for s_ in srcs], 'y': [s_[1] - 0.2 for s_ in srcs], 'flux': [s_[2] * 0.9 for s_ in srcs], 'local_bkg': [s_[3] for s_ in srcs]})
+        rp = {'image': img.tolist(), 'init_params': {c_: [float(v) for v in init[c_]] for c_ in init.colnames}, 'grouper_min_separation': 8.0}
+        try:
+            with warnings.catch_warnings():
+                warnings.simplefilter('ignore')
+                t = PSFPhotometry(CircularGaussianPRF(fwhm=3.0), (7, 7), grouper=SourceGrouper(8.0), aperture_radius=4, progress_bar=False)(img, init_params=init)
+        except Exception as e:                                  # noqa: BLE001
+            rep.violation(f'psfphot-raises:interleaved-groups:{type(e).__name__}', f'PSFPhotometry raised {e!r}', rp)
+            continue
+        rep.case(('interleaved', img.tobytes()[:64], k), True, kind='interleaved-groups')
+        rep.probe_only += 1
+        gid = [int(v) for v in t['group_id']]
+        want = [f_ for (_, _, f_, _) in srcs]
+        got = [float(v) for v in t['flux_fit']]
+        if len(set(gid)) != npairs or max(np.bincount(gid)[1:]) != 2:
+            rep.violation('interleaved-groups:grouping', f'{npairs} pairs 4.4 px apart, 20 px between pairs: group ids {gid}', rp)
+        elif not np.allclose(got, want, rtol=2e-3) or not np.allclose(np.asarray(t['local_bkg'], float), [s_[3] for s_ in srcs]):
+            rep.violation('interleaved-groups:flux', f'interleaved groups {gid} with per-row local_bkg {[s_[3] for s_ in srcs]}: flux_fit {got}, rendered {want}', rp)
 
 
 def replay(rep, data):
